@@ -58,7 +58,7 @@ REQUIRED = ['plot:pd_ts', 'plot:pk_ts', 'plot:pd_pred', 'plot:pk_pred', 'plot:re
             'nan:time', 'nanobs', 'idx:perm', 'idx:dup', 'keys:custom', 'obs:explicit', 'ties', 'n>=50',
             'probs>=2', 'probs=7', 'intvalues', 'scatter', 'resid:indiv', 'resid:rel', 'resid:nores',
             'band:both', 'obsdtype:object', 'resid:intvalues', 'nanobs:first-default:pd_pred',
-            'nanobs:first-default:pd_ts', 'dose:unshown-individual', 'times:unsorted']
+            'nanobs:first-default:pd_ts', 'dose:unshown-individual', 'times:unsorted', 'times:close', 'ids>10']
 
 PLOTS = ['pd_ts', 'pk_ts', 'pd_pred', 'pk_pred', 'resid']
 KEYPOOL = {
@@ -82,6 +82,9 @@ def _keys(draw, roles, custom):
     for r in roles:
         out[r] = draw(st.sampled_from(KEYPOOL[r][1:])) if custom else KEYPOOL[r][0]
     return out
+
+
+TIME_MAPS = [(86400.0, 1e-3), (1e6, 1.0), (0.0, 1e-9), (3.6e5, 0.5)]
 
 
 def _time(draw, integer):
@@ -123,10 +126,11 @@ def _layout(draw, fr, allow_dup=True):
 @st.composite
 def _meas_frame(draw, kind, int_ids_only):
     """Measurement frame. kind 'pd' (no dose columns) or 'pk' (dose + duration columns)."""
-    n_ids = draw(st.integers(1, 6))
+    many = gen.chance(draw, 0.12)          # more individuals than any colour cycle has entries
+    n_ids = draw(st.integers(11, 26)) if many else draw(st.integers(1, 6))
     n_obs = draw(st.integers(1, 3))
     str_ids = (not int_ids_only) and gen.chance(draw, 0.4)
-    raw = draw(st.lists(st.integers(0, 40), min_size=n_ids, max_size=n_ids, unique=True))
+    raw = draw(st.lists(st.integers(0, 60), min_size=n_ids, max_size=n_ids, unique=True))
     ids = [('p%d' % v if v % 3 else str(v)) for v in raw] if str_ids else raw
     obs = list(draw(st.permutations(OBSPOOL)))[:n_obs]
     int_values = gen.chance(draw, 0.15)
@@ -140,7 +144,7 @@ def _meas_frame(draw, kind, int_ids_only):
     rows = []
     for i in ids:
         for k, o in enumerate(obs):
-            n_t = draw(st.integers(0, 4))
+            n_t = draw(st.integers(0, 2 if many else 4))
             if k > 0 and gen.chance(draw, 0.25):
                 n_t = 0
             for _ in range(n_t):
@@ -156,7 +160,7 @@ def _meas_frame(draw, kind, int_ids_only):
     # dose rows: observable and value missing
     if kind == 'pk':
         for i in ids:
-            for _ in range(draw(st.integers(0, 3))):
+            for _ in range(draw(st.integers(0, 1 if many else 3))):
                 dur = None if gen.chance(draw, 0.15) else draw(gen.logu(0.01, 1))
                 rows.append([i, _time(draw, int_times), None, None, draw(gen.logu(0.1, 100)), dur])
     elif gen.chance(draw, 0.5) and not int_values:
@@ -326,6 +330,19 @@ def _spec(draw):
         spec['show_residuals'] = not gen.chance(draw, 0.25)
         spec['show_relative'] = bool(gen.chance(draw, 0.3))
         spec['observable'] = None
+    if gen.chance(draw, 0.12):
+        # time axes on which distinct time points are 'close' (relative to their magnitude, or absolutely): a study
+        # clock in seconds one day after the start, large offsets, sub-1e-8 spacings. Distinct stays distinct.
+        off, scale = draw(st.sampled_from(TIME_MAPS))
+        spec['time_map'] = [off, scale]
+        for key in ('data', 'sim', 'pred'):
+            fr = spec.get(key)
+            if fr is None:
+                continue
+            j = fr['fields'].index('time')
+            for r in fr['rows']:
+                if r[j] is not None:
+                    r[j] = float(off + scale * r[j])
     return spec
 
 
@@ -418,6 +435,10 @@ def classify(spec):
                 labs.append('times:unsorted')
         if spec['with_data']:
             labs.append('pred:with_data')
+    if spec.get('time_map'):
+        labs.append('times:close')
+    if len(set(r['id'] for r in _dicts(data))) > 10:
+        labs.append('ids>10')
     if spec['plot'] == 'resid':
         if spec['individual'] is not None:
             labs.append('resid:indiv')
